@@ -83,6 +83,7 @@ C04.vis: parts that are not PER-visible (X.691 10.3.21; a PATTERN constraint sta
     // a size bound is attached to a string component only if the component formatter takes the type for a known-multiplier
     // string type: the two lists of X.691 30.1 types (the analysis lives with C15.km)
     borrow(ctx, "C15", "C15.km", "C04.km", &mut |sub| crate::rules::c15::run(m, sub));
+    invisible_only(m, ctx);
     let consts = const_resolver(m);
     let inl = inline_all(m, &["ASN1Value"]);
     for k in ["fold_constraint_set", "intersect_single_and_range", "union_single_and_range", ".min_max", ".max", ".min"] {
@@ -305,6 +306,76 @@ C04.vis: parts that are not PER-visible (X.691 10.3.21; a PATTERN constraint sta
 /// C04.size: whether the emitted bound is a `size(..)` or a `value(..)` annotation is decided by the conversion of a constraint
 /// element into PerVisibleRangeConstraints (`is_size_constraint`). The conversion is evaluated on a value range, on SIZE of a
 /// range and on SIZE of a set operation: SIZE — and only SIZE — yields a size constraint, and the bounds are carried over.
+/// C04.invisible: "the bound attached is the PER-visible effective constraint" — a constraint that is not PER-visible
+/// (PATTERN, CONSTRAINED BY, CONTAINING, an inner-type constraint) contributes nothing, so a type all of whose constraints are
+/// of that kind carries no value or size annotation, signed or not. format_range_annotations is evaluated with
+/// per_visible_range_constraints followed through the crate's code on lists of visible and invisible constraints.
+fn invisible_only(m: &Model, ctx: &mut Ctx) {
+    let Some(f) = anchor_fn(m, ctx, "C04.invisible", Some("Rasn"), "format_range_annotations", None) else { return };
+    let consts = const_resolver(m);
+    let pvrc = |lo: Option<i128>, hi: Option<i128>, size: bool| {
+        let mut n = BTreeMap::new();
+        n.insert("min".to_string(), lo.map(|v| Val::some(Val::int(v))).unwrap_or(Val::none()));
+        n.insert("max".to_string(), hi.map(|v| Val::some(Val::int(v))).unwrap_or(Val::none()));
+        n.insert("extensible".to_string(), Val::Bool(false));
+        n.insert("is_size_constraint".to_string(), Val::Bool(size));
+        Val::Ctor("PerVisibleRangeConstraints".into(), vec![], n)
+    };
+    let add = m.fns.iter().find(|f| f.name == "add_assign" && f.self_ty.as_deref() == Some("PerVisibleRangeConstraints"));
+    let hook = |ev: &Evaluator, name: &str, a: &[Val]| -> Option<Result<Val, String>> {
+        match name {
+            // constraints are markers: "invisible", "size:1..4", "value:1..4"
+            ".per_visible" => match a.first() { Some(Val::Str(s)) => Some(Ok(Val::Bool(s != "invisible"))), _ => None },
+            ".try_into" => match a.first() {
+                Some(Val::Str(s)) if s.starts_with("size:") || s.starts_with("value:") => Some(Ok(Val::Ctor("Ok".into(), vec![pvrc(Some(1), Some(4), s.starts_with("size:"))], BTreeMap::new()))),
+                _ => None,
+            },
+            "PerVisibleRangeConstraints::default" | "Self::default" => Some(Ok(pvrc(None, None, false))),
+            "I::from_i128" => Some(Ok(Val::some(a.first().cloned().unwrap_or(Val::Unit)))),
+            "TokenStream::new" => Some(Ok(Val::Str(String::new()))),
+            "op:add_assign" => {
+                let f = add?;
+                let mut env = Env::new();
+                env.insert("self".into(), a[0].clone());
+                let p = f.sig.inputs.iter().filter_map(|x| match x { syn::FnArg::Typed(t) => Some(tok(&t.pat)), _ => None }).next().unwrap_or("rhs".into());
+                env.insert(p, a[1].clone());
+                Some(ev.eval_fn_body(&f.block, &mut env).and_then(|_| env.get("self").cloned().ok_or("self lost".into())))
+            }
+            _ => None,
+        }
+    };
+    let inl = inline_all(m, &["PerVisibleRangeConstraints"]);
+    let ev = Evaluator { consts: &consts, call_hook: &hook, inline: Some(&inl) };
+    let params: Vec<String> = f.sig.inputs.iter().filter_map(|a| match a { syn::FnArg::Typed(t) => Some(tok(&t.pat)), _ => None }).collect();
+    for signed in [true, false] {
+        for (what, list, want) in [
+            ("(PATTERN ..)", vec!["invisible"], ""),
+            ("(PATTERN ..) (CONSTRAINED BY {})", vec!["invisible", "invisible"], ""),
+            ("no constraint", vec![], ""),
+            ("(PATTERN ..) (SIZE (1..4))", vec!["invisible", "size:1..4"], "size(\"1..=4\")"),
+            ("(1..4)", vec!["value:1..4"], "value(\"1..=4\")"),
+        ] {
+            let key = format!("{}:signed={}", what, signed);
+            ctx.oblige("C04.invisible", &key, true);
+            let mut env = Env::new();
+            env.insert("self".into(), Val::ctor("Rasn"));
+            env.insert(params.first().cloned().unwrap_or("signed".into()), Val::Bool(signed));
+            env.insert(params.get(1).cloned().unwrap_or("constraints".into()), Val::List(list.iter().map(|s| Val::Str(s.to_string())).collect()));
+            match ev.eval_fn_body(&f.block, &mut env) {
+                Ok(Val::Ctor(ok, p, _)) if ok == "Ok" => {
+                    let got = match p.first() { Some(Val::Str(s)) | Some(Val::Sym(s)) => s.replace(' ', ""), o => format!("{:?}", o.map(|v| v.show())) };
+                    if got != want {
+                        ctx.violate("C04.invisible", &format!("annotation:{}", if want.is_empty() { "spurious" } else { "wrong" }), &f.file, f.line,
+                            &format!("format_range_annotations(signed = {}) for a type constrained by {} renders `{}`; expected `{}`: constraints that are not PER-visible contribute no bound — `a IA5String (PATTERN \"x\")` as a component must not carry `value(\"0..\")`", signed, what, got, want));
+                    }
+                }
+                Ok(o) => ctx.fail_closed("C04.invisible", &format!("[{}]: result {}", key, o.show().chars().take(100).collect::<String>())),
+                Err(e) => ctx.fail_closed("C04.invisible", &format!("[{}]: {}", key, e)),
+            }
+        }
+    }
+}
+
 fn size_flag(m: &Model, ctx: &mut Ctx) {
     use std::collections::BTreeMap as Map;
     let Some(f) = m.fns.iter().find(|f| f.name == "try_from" && f.self_ty.as_deref() == Some("PerVisibleRangeConstraints") && f.sig.inputs.iter().any(|a| tok(a).contains("Option<&SubtypeElements>"))) else {
